@@ -39,7 +39,7 @@ TrGroup == /\ Strict /\ IsEv("Group") /\ Ev.col = col /\ ToSet(Ev.proj) = proj
 TrDone == Strict /\ IsEv("Done") /\ k = Len(order) + 1 /\ UNCHANGED vars
 LColumn == ~Strict /\ IsEv("Column") /\ UNCHANGED vars
 LGroup == /\ ~Strict /\ IsEv("Group")
-          /\ Ev.exact => (IF T.method = "round" THEN ApportionOK(Ev.w, Ev.n, Ev.out) ELSE SampleOK(Ev.w, Ev.n, Ev.out))
+          /\ Ev.exact => (IF T.method = "round" THEN ApportionNear(Ev.w, Ev.n, Ev.out) ELSE SampleOK(Ev.w, Ev.n, Ev.out))
           /\ UNCHANGED vars
 LDone == ~Strict /\ IsEv("Done") /\ UNCHANGED vars
 TraceNext == TrColumn \/ TrGroup \/ TrDone \/ LColumn \/ LGroup \/ LDone
